@@ -398,6 +398,11 @@ CaseResult run_case(Tape &t, long)
           for (size_t i = 0; i < n; i++) {
             if (!src[i].process && src[i].events != 0) res.fail("poll:null-source-events", "poll: a source without a process reports events");
             if (src[i].process && (src[i].events & ~(src[i].interests | REPROC_EVENT_DEADLINE))) res.fail("poll:event-not-requested", "poll: events outside the interests");
+            if (src[i].process && (src[i].events & REPROC_EVENT_DEADLINE) && which[i] >= 0) {
+              H &y = hs[which[i]];
+              bool expired = y.st != NOT_STARTED && y.deadline && w.now >= y.t_start + y.deadline;
+              if (!expired) res.fail("poll:deadline-event-without-deadline", "poll reports the deadline event for a process that " + std::string(y.deadline ? "has not reached its deadline" : "was started without a deadline"));
+            }
             count += src[i].events != 0;
           }
           if (count != r) res.fail("poll:wrong-count", "poll returned " + std::to_string(r) + " but " + std::to_string(count) + " sources carry events");
